@@ -12,7 +12,7 @@ structure S where
   lowest : Nat
   highest : Nat
   used : List Nat          -- as a set
-deriving Repr
+deriving Repr, Inhabited
 
 def S.free (s : S) (v : Nat) : Prop := s.lowest ≤ v ∧ v ≤ s.highest ∧ v ∉ s.used
 instance (s : S) (v : Nat) : Decidable (s.free v) := by unfold S.free; infer_instance
